@@ -158,11 +158,10 @@ Proof.
     destruct (filter P l) as [|x c] eqn:Ec; [discriminate|].
     assert (Hcc : x :: c <> []) by discriminate. remember (x :: c) as cc eqn:Ecc. clear Ecc.
     intros H Hn. injection H as Hr Ho. subst r o.
+    rewrite ovals_vals by (apply sortu_nonnil, nonempty_some, Hn).
+    rewrite (filter_sortu P l), Ec.
     assert (Hne : sortu cc <> []) by (apply sortu_nonnil, Hcc).
-    rewrite ovals_vals by exact Hne.
-    rewrite (filter_all P (sortu cc)).
-    + destruct (sortu cc) as [|y t] eqn:Es; [congruence|]. rewrite <- Es. rewrite sortu_idem. reflexivity.
-    + intros y Hy. apply sortu_In in Hy. rewrite <- Ec in Hy. apply filter_In in Hy as [_ Hy]. exact Hy.
+    destruct (sortu cc) as [|y t] eqn:Es; [congruence|]. rewrite <- Es. rewrite !sortu_idem. reflexivity.
   - intros H Hn. inversion H; subst.
     rewrite ovals_vals by (apply sortu_nonnil, nonempty_some, Hn). rewrite sortu_idem. reflexivity.
 Qed.
